@@ -145,4 +145,9 @@ def hessian(poly: PolyLike) -> ndpoly:
                      [0, 0, 2*q0]]])
 
     """
-    return gradient(gradient(poly))
+    poly = numpoly.aspolynomial(poly)
+    # differentiate the gradient with respect to the indeterminants of `poly`
+    # itself: the gradient may have lost some of them (retain_names=False)
+    grad, _ = numpoly.align_indeterminants(gradient(poly), poly.indeterminants)
+    polys = [derivative(grad, diffvar)[numpy.newaxis] for diffvar in poly.names]
+    return numpoly.concatenate(polys, axis=0)
